@@ -3,6 +3,7 @@ package main
 import (
 	"fmt"
 	"math/rand"
+	"runtime"
 
 	"github.com/akalin/gopar/gf2p16"
 
@@ -267,6 +268,7 @@ func probes(rng *rand.Rand, n int) [][]int {
 
 func runC11(args []string) error {
 	c := newCommon("c11")
+	mode := c.fs.String("mode", "full", "full | procs (small matrices whose elimination factors are the constants a GOMAXPROCS-dependent table initialisation would get wrong)")
 	c.fs.Parse(args)
 	lg, err := tracelog.Create(c.out)
 	if err != nil {
@@ -275,17 +277,77 @@ func runC11(args []string) error {
 	defer lg.Close()
 	rng := rand.New(rand.NewSource(c.seed*41 + 9))
 	thorough := c.tier == "thorough"
+	if *mode == "procs" {
+		np := runtime.GOMAXPROCS(0)
+		cs := []int{1, 2, 0x8000}
+		for k := 0; k < 32; k++ {
+			cs = append(cs, 0xFFFF-k)
+		}
+		for w := 1; w < np; w++ {
+			for _, per := range []int{65536 / np, 65535 / np} {
+				cs = append(cs, w*per-1, w*per, w*per+1)
+			}
+		}
+		for k := 0; k < 8; k++ {
+			cs = append(cs, 1+rng.Intn(65535))
+		}
+		for _, cst := range cs {
+			if cst <= 0 || cst > 65535 {
+				continue
+			}
+			ci := int(gf2p16.T(cst).Inverse())
+			// factor cst when eliminating below and above the pivot; pivot whose inverse is cst (row scaling by cst)
+			for _, mm := range [][][]int{
+				{{1, 0, 7}, {cst, 1, 0}, {0, cst, 1}},
+				{{ci, 3, 1}, {0, 1, cst}, {0, 0, 1}},
+				{{1, cst}, {0, 1}},
+			} {
+				n := len(mm)
+				m := newMat(n, n)
+				for i := range mm {
+					for j := range mm[i] {
+						m[i][j] = uint16(mm[i][j])
+					}
+				}
+				gm := m.toGopar()
+				inv, err := func() (r gf2p16.Matrix, e error) {
+					defer func() {
+						if x := recover(); x != nil {
+							e = fmt.Errorf("panic: %v", x)
+						}
+					}()
+					return gm.Inverse()
+				}()
+				ev := tracelog.M{"ev": "inv", "n": n, "kind": "procs", "m": m.ints(), "probes": probes(rng, n), "procs": np}
+				ev["m_unchanged"] = fromGopar(gm, n, n).equal(m)
+				if err != nil {
+					ev["res"] = "singular"
+					if err.Error() != "singular matrix" {
+						ev["res"] = "other:" + err.Error()
+					}
+					ev["cert"] = nullVector(m)
+					ev["x"] = [][]int{}
+				} else {
+					ev["res"] = "ok"
+					ev["x"] = fromGopar(inv, n, n).ints()
+					ev["cert"] = []int{}
+				}
+				lg.Emit(ev)
+			}
+		}
+		return nil
+	}
 	var dims []int
 	if thorough {
 		for n := 1; n <= 40; n++ {
 			dims = append(dims, n)
 		}
-		dims = append(dims, 64, 100, 200, 300)
+		dims = append(dims, 64, 100, 200, 257, 300, 520)
 	} else {
 		for n := 1; n <= 20; n++ {
 			dims = append(dims, n)
 		}
-		dims = append(dims, 24, 31, 32, 33, 40, 64, 100, 150)
+		dims = append(dims, 24, 31, 32, 33, 40, 64, 100, 150, 257, 300)
 	}
 	for _, n := range dims {
 		kinds := []int{0, 1, 2, 3, 4, 5, 6, 7, 8, 9, 10, 11}
